@@ -77,3 +77,20 @@ for p in todo:
     tot_t = sum(v["total"] for f in rep.values() for v in f.values() if isinstance(v, dict))
     print(p, f"entered functions: {sum(len(f) for f in rep.values())}  statements executed {tot_e}/{tot_t}")
     shutil.rmtree(tmp, ignore_errors=True)
+
+# summary over everything recorded so far
+import glob
+lines = ["# Reach of the quick correspondence campaigns inside the library (tools/impl_coverage.py)\n",
+         "For each property: the functions of its anchored files that the quick campaign entered, statements executed / total",
+         "in those functions, and the entered functions with the most unreached statements. Unreached statements are mostly",
+         "the metrics-collection branches (exercised by C15/C16 only), unordered / non-unique fibers, lazy operands and error",
+         "paths outside the properties' domains. This is a report about generator reach, not a check.\n",
+         "| property | functions entered | statements executed / total | least covered entered functions (executed/total) |", "|---|---|---|---|"]
+for fn in sorted(glob.glob(os.path.join(V, "coverage", "C*.json"))):
+    r = json.load(open(fn))
+    fs = [(q, v, f) for f, d in r["files"].items() for q, v in d.items() if isinstance(v, dict)]
+    e = sum(v["executed"] for _, v, _ in fs); t = sum(v["total"] for _, v, _ in fs)
+    worst = sorted(fs, key=lambda x: x[1]["executed"] - x[1]["total"])[:5]
+    lines.append(f"| {r['property']} | {len(fs)} | {e} / {t} | " +
+                 "; ".join(f"{q} ({v['executed']}/{v['total']})" for q, v, _ in worst if v['executed'] < v['total']) + " |")
+open(os.path.join(V, "coverage", "SUMMARY.md"), "w").write("\n".join(lines) + "\n")
